@@ -4,7 +4,7 @@
 From Coq Require Import String List.
 Import ListNotations.
 Definition expected_console_util_src : list (string * string) := [
-  ("console:*Console.log", "return func(call goja.FunctionCall)goja.Value{if format,ok:=goja.AssertFunction(c.util.Get(""format""));ok{ret,err:=format(c.util,call.Arguments...);if err!=nil{panic(err)};p(ret.String())}else{panic(c.runtime.NewTypeError(""util.format is not a function""))};return nil}");
+  ("console:*Console.log", "return func(call goja.FunctionCall)goja.Value{if format,ok:=goja.AssertFunction(c.util.Get(""format""));ok{ret,err:=format(c.util,call.Arguments...);if err!=nil{panic(err)};p(ret.String())}else{panic(c.runtime.NewTypeError(""util.format is not a function""))};return goja.Undefined()}");
   ("console:Require", "requireWithPrinter(defaultStdPrinter)(runtime,module)");
   ("console:RequireWithPrinter", "return requireWithPrinter(printer)");
   ("console:requireWithPrinter", "return func(runtime*goja.Runtime,module*goja.Object){c:=&Console{runtime:runtime,printer:printer};c.util=require.Require(runtime,util.ModuleName).(*goja.Object);o:=module.Get(""exports"").(*goja.Object);o.Set(""log"",c.log(c.printer.Log));o.Set(""error"",c.log(c.printer.Error));o.Set(""warn"",c.log(c.printer.Warn));o.Set(""info"",c.log(c.printer.Log));o.Set(""debug"",c.log(c.printer.Log))}");
